@@ -319,8 +319,8 @@ contract(MP, 'PDABuilder.build', {'self': 'Builder'}, returns='PDA', modifies=['
 
 # ------------------------------------------------------------------------------------------------ generic builder, fresh names (used by the TM builder)
 contract(MB, 'AutomatonBuilder._fresh_state', {'self': 'Builder', 'states': 'Set[Atom]', 'hint': 'Atom'}, returns='Atom', defaults={'hint': "'P'"}, type_invariants=['fin(states)'],
-         ensures=['result not in states', 'implies(hint not in states, result == hint)', 'result == hint or any(i >= 1 and result == hint_index_name(hint, i) for i in ints())'],
-         loops={1: {'invariant': ['index >= 1', 'hint in states'], 'decreases': ['card(states - unnamed_from(hint, index))'],
+         ensures=['result not in states', 'implies(hint not in states, result == hint)', 'result == hint or any(i >= 1 and result == hint_index_name(hint, i) and all(implies(1 <= j and j < i, hint_index_name(hint, j) in states) for j in ints()) for i in ints())'],
+         loops={1: {'invariant': ['index >= 1', 'hint in states', 'all(implies(1 <= j and j < index, hint_index_name(hint, j) in states) for j in ints())'], 'decreases': ['card(states - unnamed_from(hint, index))'],
                     'body_end': ['state == hint_index_name(hint, index - 1)', 'state in states', 'states - unnamed_from(hint, index) == (states - unnamed_from(hint, index - 1)) - {state}']}},
          theories=['word', 'naming'], props=['C17'],
          note='a state name that is not in use: the hint itself if it is free, otherwise the first free name hint1, hint2, ... (total correctness: finitely many names are taken)')
@@ -394,3 +394,37 @@ contract(MT, 'TMBuilder.build', {'self': 'Builder'}, returns='TM', modifies=['se
          theories=TH + ['word', 'naming'], props=['C17'],
          note='a tokenised TM description (labels "ab,d") is turned into exactly the machine that was written: accepting / rejecting state = the declared one or a fresh name, blank = declared / conventional / default, tape alphabet = declared or used symbols plus the blank, '
               'input alphabet = the declared one, or the tape symbols without the blank; every (state, symbol) entry of the transition function comes from the last line of the description for that pair (two lines for one pair are NOT rejected: the later one silently wins); an exception is raised exactly in the thirteen listed cases')
+
+
+# ------------------------------------------------------------------------------------------------ the line dispatch of the tokeniser
+_W = 'tokens(line)'
+_REST = 'all(implies(0 <= k and k < len(%s) - 1, %%s[k] == %s[k + 1]) for k in ints())' % (_W, _W)
+def _is(kw): return "(len(%s) > 0 and not str_startswith(%s[0], '%%') and %s[0] == '%s')" % (_W, _W, _W, kw)
+_SKIP = "(len(%s) == 0 or str_startswith(%s[0], '%%'))" % (_W, _W)
+_KWD = "(len(%s) > 0 and not str_startswith(%s[0], '%%') and %s[0] != 'states' and %s[0] != 'final' and %s[0] != 'initial' and %s[0] in self.keywords)" % ((_W,) * 6)
+_TRANS = "(len(%s) > 0 and not str_startswith(%s[0], '%%') and %s[0] != 'states' and %s[0] != 'final' and %s[0] != 'initial' and %s[0] not in self.keywords)" % ((_W,) * 6)
+_DUPW = 'any(1 <= i and i < j and j < len(%s) and %s[i] == %s[j] for i in ints() for j in ints())' % (_W, _W, _W)
+_BADW = 'any(1 <= t and t < len(%s) and not re_fullmatch(self.state_regex, %s[t]) for t in ints())' % (_W, _W)
+_DECLLINE = "(%s or %s or %s)" % (_is('states'), _is('final'), _is('initial'))
+contract(MB, 'AutomatonParser.parse_line', {'self': 'Parser', 'line': 'Atom'}, returns='None', modifies=['self'],
+         raises=["(%s and %s[0] in self.items)" % (_DECLLINE, _W),                                     # 0 repeated declaration of a state set
+                 "(%s and %s)" % (_DECLLINE, _DUPW),                                                   # 1 a name listed twice
+                 "(%s and len(%s) == 1)" % (_is('states'), _W),                                        # 2 empty state list
+                 "(%s and %s)" % (_DECLLINE, _BADW),                                                   # 3 malformed state name
+                 "(%s and %s[0] in self.items)" % (_KWD, _W),                                          # 4 repeated keyword
+                 "(%s and len(%s) <= 2)" % (_TRANS, _W),                                               # 5 incomplete transition
+                 "(%s and (not re_fullmatch(self.state_regex, %s[0]) or not re_fullmatch(self.state_regex, %s[1])))" % (_TRANS, _W, _W),      # 6
+                 "(%s and any(2 <= t and t < len(%s) and not re_fullmatch(self.transition_regex, %s[t]) for t in ints()))" % (_TRANS, _W, _W)],   # 7
+         ensures=['implies(%s, self == old(self))' % _SKIP,
+                  'implies(%s, all((x in self.states) == any(1 <= t and t < len(%s) and %s[t] == x for t in ints()) for x in atoms()) and self.initial_states == old(self.initial_states) and self.final_states == old(self.final_states) and self.transitions == old(self.transitions))' % (_is('states'), _W, _W),
+                  'implies(%s, all((x in self.final_states) == any(1 <= t and t < len(%s) and %s[t] == x for t in ints()) for x in atoms()) and self.initial_states == old(self.initial_states) and self.states == old(self.states) and self.transitions == old(self.transitions))' % (_is('final'), _W, _W),
+                  'implies(%s, all((x in self.initial_states) == any(1 <= t and t < len(%s) and %s[t] == x for t in ints()) for x in atoms()) and self.states == old(self.states) and self.final_states == old(self.final_states) and self.transitions == old(self.transitions))' % (_is('initial'), _W, _W),
+                  'implies(%s or %s, %s[0] in self.items and len(self.items[%s[0]]) == len(%s) - 1 and %s and all(implies(y != %s[0], (y in self.items) == (y in old(self.items))) for y in atoms()))' % (_DECLLINE, _KWD, _W, _W, _W, _REST % ('self.items[%s[0]]' % _W), _W),
+                  'implies(%s, self.states == old(self.states) and self.initial_states == old(self.initial_states) and self.final_states == old(self.final_states) and self.transitions == old(self.transitions))' % _KWD,
+                  'implies(%s, self.items == old(self.items) and self.states == old(self.states) and self.initial_states == old(self.initial_states) and self.final_states == old(self.final_states) and len(self.transitions) == len(old(self.transitions)) + len(%s) - 2 '
+                  'and all(implies(0 <= t and t < len(old(self.transitions)), self.transitions[t] == old(self.transitions)[t]) for t in ints()) '
+                  'and all(implies(0 <= k and k < len(%s) - 2, self.transitions[len(old(self.transitions)) + k] == (%s[0], %s[k + 2], %s[1])) for k in ints()))' % (_TRANS, _W, _W, _W, _W, _W),
+                  'self.keywords == old(self.keywords)', 'self.state_regex == old(self.state_regex)', 'self.transition_regex == old(self.transition_regex)'],
+         theories=TH, props=['C17'],
+         note='one line of a description, given its blank-separated tokens (tokens(line): uninterpreted): comment and blank lines change nothing; "states / initial / final ..." set exactly that state set and record the declaration; a keyword line records its values; '
+              'any other line appends its transitions; raises exactly in the eight listed cases (repeated declaration, duplicate name, empty state list, malformed name, repeated keyword, incomplete transition, malformed state or label)')
